@@ -57,17 +57,17 @@ type Inst struct {
 	// freeGate: a scheduler gate held outside every critical section (gate_free)
 	freeGate chan struct{}
 	// startCancel cancels the context given to the latest Start call
-	startCancel   context.CancelFunc
-	np, nd        atomic.Int32
-	gauge         atomic.Int32
-	healthIdx     int
-	partition     string
-	lastSnap      string
-	apiBusy       atomic.Int32
-	lockHeld      atomic.Int32
-	transGateUsed atomic.Bool
-	gate          chan struct{}
-	group         string
+	startCancel    context.CancelFunc
+	np, nd         atomic.Int32
+	gauge          atomic.Int32
+	healthIdx      int
+	partition      string
+	lastSnap       string
+	apiBusy        atomic.Int32
+	lockHeld       atomic.Int32
+	transGateCount atomic.Int32
+	gate           chan struct{}
+	group          string
 }
 
 type prog struct {
@@ -419,7 +419,7 @@ func (m metrics) SetConnectionStatus(v float64, _ prometheus.Labels) {
 }
 func (m metrics) IncTransitions(l prometheus.Labels) {
 	m.w.tr.Emit(m.in.cfg.ID, "m_trans", KV{"from": l["from_state"], "to": l["to_state"]})
-	if m.in.cfg.GateTransTo != "" && l["to_state"] == m.in.cfg.GateTransTo && !m.w.closing && m.in.transGateUsed.CompareAndSwap(false, true) {
+	if m.in.cfg.GateTransTo != "" && l["to_state"] == m.in.cfg.GateTransTo && !m.w.closing && m.in.transGateCount.Add(1) == int32(max(1, m.in.cfg.GateTransNth)) {
 		// a scheduler gate inside the critical section that publishes the transition (see ObserveLeaderDuration)
 		ch := make(chan struct{})
 		m.w.mu.Lock()
